@@ -142,16 +142,26 @@ def Hub.handle (h : Hub) (mintsFee : Bool) (chain : String) : Event → M Hub
     let c := h.chain chain
     .ok (h.setChain chain { c with lastObservedSet := some (sn, members) })
 
-/-- `TryEventVoteRecord` for one record (already known to be at `lastObserved + 1`). -/
+/-- Decision of `eventVoteRecordTally` + `TryEventVoteRecord` for one record of the snapshot read at
+    the start of the tally: it is at `lastObserved + 1`, was not accepted when read, and its votes
+    reach the required power (powers added in vote order). -/
+def ChainSt.accepts (c : ChainSt) (power : String → Nat) (required : Int) (r : VoteRec) : Bool :=
+  r.nonce == c.lastObserved + 1 && !r.accepted && reachesThreshold power required r.votes 0
+
+/-- The bookkeeping writes made before the handler runs. -/
+def ChainSt.markObserved (c : ChainSt) (r : VoteRec) (cosmosHeight : Nat) : ChainSt :=
+  { c with lastObserved := r.nonce, obsExtHeight := r.ev.height, obsCosmosHeight := cosmosHeight,
+           records := insertByKey recKey { r with accepted := true } c.records }
+
+def Hub.requiredPower (h : Hub) : Int :=
+  voteThreshold h.params.voteNum h.params.voteAdd h.params.voteDen h.totalPower
+
+/-- `TryEventVoteRecord` for one record of the snapshot. -/
 def Hub.tryRecord (h : Hub) (mintsFee : Bool) (chain : String) (r : VoteRec) : M Hub := do
-  if r.accepted then panicM "attempting to process observed external event"
-  let required := voteThreshold h.params.voteNum h.params.voteAdd h.params.voteDen h.totalPower
-  if !reachesThreshold h.lastPower required r.votes 0 then return h
-  let c := h.chain chain
-  if r.nonce != c.lastObserved + 1 then panicM "attempting to apply events to state out of order"
-  let c := { c with lastObserved := r.nonce, obsExtHeight := r.ev.height, obsCosmosHeight := h.height,
-                    records := insertByKey recKey { r with accepted := true } c.records }
-  let h := h.setChain chain c
+  if r.nonce == (h.chain chain).lastObserved + 1 && r.accepted then
+    panicM "attempting to process observed external event"
+  if !(h.chain chain).accepts h.lastPower h.requiredPower r then return h
+  let h := h.setChain chain ((h.chain chain).markObserved r h.height)
   -- processExternalEvent: cache context, commit only on nil error; a panic of the handler is
   -- recovered and treated like an error
   match h.handle mintsFee chain r.ev with
@@ -160,8 +170,14 @@ def Hub.tryRecord (h : Hub) (mintsFee : Bool) (chain : String) (r : VoteRec) : M
 
 /-- `eventVoteRecordTally`: records are read once, in key order (nonce, then hash). -/
 def Hub.tally (h : Hub) (mintsFee : Bool) (chain : String) : M Hub :=
-  (h.chain chain).records.foldlM (fun (h : Hub) r =>
-    if r.nonce == (h.chain chain).lastObserved + 1 then h.tryRecord mintsFee chain r else pure h) h
+  (h.chain chain).records.foldlM (fun (h : Hub) r => h.tryRecord mintsFee chain r) h
+
+/-- The same tally on the vote bookkeeping alone (what `Hub.tally` does to `lastObserved` and
+    `records`, the handler left out), returning the records it applied in order. -/
+def ChainSt.tallyPure (c : ChainSt) (power : String → Nat) (required : Int) (height : Nat) :
+    ChainSt × List VoteRec :=
+  c.records.foldl (fun (acc : ChainSt × List VoteRec) r =>
+    if acc.1.accepts power required r then (acc.1.markObserved r height, acc.2 ++ [r]) else acc) (c, [])
 
 /-- `MsgSubmitExternalEvent` (after `ValidateBasic`). -/
 def Hub.submitEvent (h : Hub) (chain signer : String) (ev : Event) : M Hub := do
